@@ -106,6 +106,7 @@ def span_snapshot(s):
 
 
 class DatesWorld(World):
+    NET_ALL = True   # every step of this world is a handful of calls on irispie dates and nothing else
     PROPERTY = "C09"
     NAME = "dates"
 
@@ -550,7 +551,11 @@ class DatesWorld(World):
             raise Violation("crash", opname, pred, type(e).__name__, f"{type(e).__name__}: {str(e)[:160]}")
 
     def _check_span(self, opname, pred, real, m: SpanM, ctx):
-        """Full agreement of one live span with its model."""
+        """Full agreement of one live span with its model.  Every observer used here is defined for a span the
+        model holds, so an exception out of one (an unhashable end point, say) is a crash, not a harness error."""
+        self._guard(opname, pred, lambda: self._check_span_body(opname, pred, real, m, ctx))
+
+    def _check_span_body(self, opname, pred, real, m: SpanM, ctx):
         def bad(msg, klass="refine"):
             raise Violation(klass, opname, pred, "", f"{ctx}: {msg}")
         if not isinstance(real, ir.Span):
